@@ -106,6 +106,9 @@ def main(argv=None):
     for what, n in seen_known.items():
         print(f"KNOWN-FINDING: property={pid} {what} (seen {n}x)")
     code = 0
+    if os.environ.get("VERIF_DEBUG"):
+        json.dump([{"oracle": v.get("oracle"), "signature": v.get("signature"), "message": v.get("message"), "spec": v.get("spec"), "choices": v.get("choices")}
+                   for v in new_viol], open(f"/tmp/verif_viol_{pid}.json", "w"), indent=1, default=repr)
     for v in new_viol[:10]:
         path = findings.write_replay(pid, v)
         print(f"VIOLATION property={pid} replay={path}")
